@@ -66,10 +66,95 @@ def gen_inline_docs(c):
         docs.append(''.join(parts))
     return docs
 
+WS_AFTER_Z = [0xa0, 0x2003, 0x0b, 0x85, 0x3000, 0x1680, 0x2028, 0x202f, 0xfeff, 0x200b]
+NAMED = [92, 34, 39, 97, 98, 101, 102, 110, 114, 116, 118]
+
+def gen_strlit_items(r, term):
+    items = []
+    after_z = False
+    for _ in range(r.randint(0, 7)):
+        k = r.random()
+        if k < 0.35:
+            ch = r.choice([rand_scalar(r), r.choice(WS_AFTER_Z), 32, 9, 10, 34, 39])
+            if ch in (92, term) or (after_z and ch in (32, 9, 10, 12, 13)):
+                ch = 120
+            items.append(['p', ch]); after_z = False
+        elif k < 0.5:
+            items.append(['n', r.choice(NAMED)]); after_z = False
+        elif k < 0.62:
+            items.append(['x', r.randint(0, 7), r.randint(0, 15), r.randint(0, 1)]); after_z = False
+        elif k < 0.78:
+            v = r.choice([0, 0x41, 0x7f, 0x80, 0xd7ff, 0xe000, 0xffff, 0x10000, 0x10ffff, rand_scalar(r)])
+            hx = '%x' % v
+            if r.random() < 0.3:
+                hx = hx.upper()
+            if r.random() < 0.3:
+                hx = '0' * r.randint(1, 4) + hx
+            items.append(['u', [ord(ch) for ch in hx]]); after_z = False
+        elif k < 0.88:
+            items.append(['c', r.randint(63, 95)]); after_z = False
+        else:
+            items.append(['z', [r.choice([32, 9, 10, 12, 13]) for _ in range(r.randint(0, 3))]]); after_z = True
+    return items
+
+MALFORMED = ['"abc', "'abc", '"a\\', '"\\q"', '"\\x8"', '"\\x80"', '"\\xg0"', '"\\u{}"', '"\\u{110000}"', '"\\u{d800}"', '"\\u{12345678}"', '"\\u{100000000}"',
+             '"\\u{fffffffffffffffff}"', '"\\u41"', '"\\u{41"', '"\\^a"', '"\\^~"', '"\\^"', '"\\z', '"\\z   "', '"\\^\u0141"', '"\\x7f"', '"\\x00"', '""', "''", '"\\\'"']
+
+def check_strlit(c):
+    r = c.rng
+    n = 700 if c.tier == 'quick' else 12000
+    specs = []
+    for _ in range(n):
+        term = r.choice([34, 39])
+        specs.append((term, gen_strlit_items(r, term)))
+    spec_lines = [sx([Sym('strlit-spec'), term] + [[Sym(it[0])] + it[1:] for it in items]) for term, items in specs]
+    so = c.model('fmt', spec_lines)
+    lits = []
+    for (term, items), o in zip(specs, so):
+        p = try_parse(o)
+        if not (isinstance(p, list) and len(p) == 3):
+            c.violation('strlit-spec-broken', {'kind': 'model', 'request': str(items), 'model': o}, no_input=True); continue
+        wf, src, den = p
+        if wf != 1:
+            continue
+        lits.append(([term] + src + [term], den))
+    il = [sx([Sym('strlit'), lit]) for lit, _ in lits]
+    io = c.impl('fmt', il)
+    ml = c.model('fmt', il)
+    for (lit, den), o, m in zip(lits, io, ml):
+        text = ''.join(map(chr, lit))
+        c.note_case('s:' + text, any(x == 92 for x in lit), 'strlit-with-escape' if 92 in lit else 'strlit-plain')
+        if o != sx([b'ok', den]):
+            c.violation('strlit-denotation', {'kind': 'impl-vs-spec', 'op': 'strlit', 'literal': text, 'literal_codepoints': lit, 'impl': o, 'denoted_codepoints': den})
+        elif not m.startswith('("ok" ' + sx(den)):
+            c.violation('strlit-model-differs', {'kind': 'impl-vs-model', 'literal': text, 'impl': o, 'model': m}, no_input=True)
+    # malformed stream: error kind of the real lexer vs the model parser
+    mal = MALFORMED + [m[:-1] for m in MALFORMED if len(m) > 2]
+    for _ in range(200 if c.tier == 'quick' else 3000):
+        term, items = r.choice([34, 39]), gen_strlit_items(r, 34)
+        body = ''.join(r.choice(['\\', 'x', 'u', '{', '}', '^', 'z', ' ', '"', "'", '7', 'f', 'G', 'é', '\n', chr(0xa0)]) for _ in range(r.randint(0, 9)))
+        mal.append(chr(term) + body + r.choice(['', chr(term)]))
+    ll = [sx([Sym('strlit-lex'), cps(t)]) for t in mal]
+    lo = c.impl('fmt', ll)
+    mo = c.model('fmt', [sx([Sym('strlit'), cps(t)]) for t in mal])
+    for t, o, m in zip(mal, lo, mo):
+        c.note_case('sm:' + t, True, 'strlit-malformed')
+        po, pm = try_parse(o), try_parse(m)
+        if not isinstance(po, list) or po[0] not in (b'ok', b'err'):
+            c.violation('strlit-crash', {'kind': 'impl-crash', 'literal': t, 'literal_codepoints': cps(t), 'impl': o}); continue
+        if isinstance(pm, list) and pm[0] == b'ok' and len(pm) == 3 and pm[2]:
+            c.dist['strlit-malformed-trailing-skipped'] = c.dist.get('strlit-malformed-trailing-skipped', 0) + 1
+            continue   # text after the closing quote: the real lexer goes on to further tokens
+        same = (po[0] == b'ok' and isinstance(pm, list) and pm[0] == b'ok' and po[1] == pm[1]) or (po[0] == b'err' and isinstance(pm, list) and pm[0] == b'err' and po[1] == pm[1])
+        if not same:
+            c.violation('strlit-lex-differs-from-model', {'kind': 'impl-vs-model', 'literal': t, 'literal_codepoints': cps(t), 'impl': o, 'model': m}, no_input=True)
+    if lits:
+        c.sample({'op': 'strlit', 'literal': ''.join(map(chr, lits[0][0])), 'denoted': lits[0][1]})
+
 def check(c):
     c.rule = ('json: strings of Unicode scalars (boundary set singly, random mixtures of ASCII/control/BMP/astral; thorough: every scalar singly); '
               'inline: documents over brackets/backticks/expressions; non-trivial = contains a char needing an escape (json) or a [[ ]] or backtick (inline); distinct by text')
-    ok = c.proof(['C18'], extra_targets=['Extract/XText.vo'])
+    ok = c.proof(['C18'], extra_targets=['Extract/XText.vo', 'Extract/XFmt.vo'])
     if c.tier == 'thorough' and ok:
         c.thorough_proof(['C18'])
     # ---------------- JSON escaper ----------------
@@ -177,6 +262,7 @@ def check(c):
             c.violation('inline-json-differs-from-model', {'kind': 'impl-vs-model', 'doc': docs[i], 'impl_json': repr(ip[2]), 'model': o}, no_input=True)
     if docs:
         c.sample({'op': 'inline', 'doc': docs[25], 'impl': impl[25]})
+    check_strlit(c)
     if c.tier == 'thorough':
         c.exhaustive = True
         c.extra['exhaustive_scope'] = 'every Unicode scalar value singly through json::escape_string'
